@@ -370,7 +370,7 @@ def unitsToUserUnits(input_string, percent_ref=None):
     if unit == 'pt':
         return float(value) * PX_PER_INCH / 72.0
     if unit == '%':
-        if percent_ref:
+        if percent_ref is not None:
             return float(value) * float(percent_ref) / 100.0
         return float(value) / 100.0
     return None # Handle case of cnsupported units
